@@ -169,12 +169,12 @@ def qreduce2 (n : Int) (d : Nat) : QVal :=
     let z := min (tz n.natAbs) (tz d)
     ⟨n / ((2 ^ z : Nat) : Int), d / 2 ^ z⟩
 
-/-- `impl Deserialize for RBig`: (numerator, denominator) then `reduce`.  A zero denominator under a
-    non-zero numerator must be an error (`0/0` is read as zero by `reduce`'s first test). -/
+/-- `impl Deserialize for RBig`: (numerator, denominator) then `reduce`.  A zero denominator must be
+    an error (as it is, `n/0` becomes `±1/0` and `0/0` is read as zero by `reduce`'s first test). -/
 def decQ (s : Bytes) : Option (QVal × Bytes) := do
   let (n, r1) ← decI s
   let (d, r2) ← decU r1
-  if d = 0 ∧ n ≠ 0 then none else pure (qreduce n d, r2)
+  if d = 0 then none else pure (qreduce n d, r2)
 
 /-- the code as it is: `gcd(n, 0) = |n|`, so `n/0` becomes `±1/0` -/
 def decQAsIs (s : Bytes) : Option (QVal × Bytes) := do
@@ -187,7 +187,7 @@ def decQAsIs (s : Bytes) : Option (QVal × Bytes) := do
 def decX (s : Bytes) : Option (QVal × Bytes) := do
   let (n, r1) ← decI s
   let (d, r2) ← decU r1
-  if d = 0 ∧ n ≠ 0 then none else pure (qreduce2 n d, r2)
+  if d = 0 then none else pure (qreduce2 n d, r2)
 
 -- ================================================================ human-readable medium
 
@@ -238,11 +238,11 @@ def parseQRaw (s : Bytes) : Option (Int × Nat) :=
 
 def parseQ (s : Bytes) : Option QVal := do
   let (n, d) ← parseQRaw s
-  if d = 0 ∧ n ≠ 0 then none else pure (qreduce n d)
+  if d = 0 then none else pure (qreduce n d)
 def parseQAsIs (s : Bytes) : Option QVal := (parseQRaw s).map fun (n, d) => qreduce n d
 def parseX (s : Bytes) : Option QVal := do
   let (n, d) ← parseQRaw s
-  if d = 0 ∧ n ≠ 0 then none else pure (qreduce2 n d)
+  if d = 0 then none else pure (qreduce2 n d)
 
 def jsonQ (q : QVal) : Bytes := jsonQuote (textQ q)
 def unjsonQ (s : Bytes) : Option QVal := (jsonUnquote s).bind parseQ
